@@ -4,15 +4,16 @@
    e504d5d, which SETS the cancelled leading coefficient to zero) in the STANDARD MODEL of floating-point arithmetic
    (Base/RoundModel.v: the same Gallina [polydiv] at the arithmetic ARm whose operations are the exact ones times
    (1+d), |d| <= u).  For every coefficient index k, with the EXACT real convolution (q*v)_k = Sum_{i<=k} q_i v_{k-i}:
-        | a_k - (q*v)_k - r_k |  <=  gam (2 N) ( |a_k| + Sum_{i<=k} |q_i| |v_{k-i}| ),    N = len a + 1 - len v
-   (N bounds the number of passes of the loop; gam n = n u / (1 - n u)).  The residual of each cancelled leading
-   coefficient, r_top - fl(r_top / v_top) v_top, which the repaired loop discards, is part of the bounded error.
+        | a_k - (q*v)_k - r_k |  <=  gam (2 M) ( |a_k| + Sum_{i<=k} |q_i| |v_{k-i}| )        (polydiv_rounded_identity)
+        | a_k - (q*v)_k - r_k |  <=  gam (4 M) ( Sum_{i<=k} |q_i| |v_{k-i}| + |r_k| )        (polydiv_rounded_residual)
+   M = min(N, len v),  N = len a + 1 - len v  (N bounds the number of passes of the loop, and one coefficient is touched
+   by at most len v of them; gam n = n u / (1 - n u)).  The residual of each cancelled leading coefficient,
+   r_top - fl(r_top / v_top) v_top, which the repaired loop discards, is part of the bounded error.
    Hypotheses beside the (1+d) laws: the leading coefficient of v is not zero; the dividend's coefficients belong to
    the set F of floating-point numbers; results of -, *, / are in F and 0 + x = x + 0 = x - 0 = x for x in F (true of
    every correctly rounded arithmetic; discharged for 53-bit round-to-nearest-even in Proofs/Round2PolyB.v).
-   Unproved remainder: the statement is about the standard model, not about binary64 itself (no overflow/underflow
-   analysis of [polydiv] at the primitive floats); the constant counts every pass for every index (an index is touched
-   by at most min(N, len v) passes, so gam (2 min(N, len v)) is the expected sharp form -- not proved).
+   Unproved remainder: the statements are about the standard model, not about binary64 itself (no overflow/underflow
+   analysis of [polydiv] at the primitive floats).
    ====================================================================================================== *)
 From Coq Require Import List Reals Lra Lia.
 From OV Require Import Base.Panic Base.Arith Base.RoundModel Model.Poly Proofs.RoundFlx Proofs.Round2Poly Proofs.Round2PolyB.
@@ -29,11 +30,11 @@ Theorem polydiv_rounded_identity : forall (u : R), (0 <= u < 1)%R ->
   (forall x : R, F x -> fadd 0%R x = x) -> (forall x : R, F x -> fadd x 0%R = x) ->
   (forall x : R, F x -> fsub x 0%R = x) ->
   forall (a v q r : list R),
-  last v 0%R <> 0%R -> Forall F a -> (INR (2 * (length a + 1 - length v)) * u < 1)%R ->
+  last v 0%R <> 0%R -> Forall F a -> (INR (2 * Nat.min (length a + 1 - length v) (length v)) * u < 1)%R ->
   polydiv (A := ARm fadd fsub fmul fdiv) a v = Ok (inl (q, r)) ->
   forall k : nat,
   (Rabs (nth k a 0 - Rsum (S k) (fun i => nth i q 0 * nth (k - i) v 0) - nth k r 0)
-     <= gam u (2 * (length a + 1 - length v))
+     <= gam u (2 * Nat.min (length a + 1 - length v) (length v))
         * (Rabs (nth k a 0) + Rsum (S k) (fun i => Rabs (nth i q 0) * Rabs (nth (k - i) v 0))))%R.
 Proof. intros u Hu fadd fsub fmul fdiv Ha Hs Hm Hd F F1 F2 F3 Z1 Z2 Z3 a v q r Hv Fa Hn E. exact (polydiv_rounded_identity_lemma u Hu fadd fsub fmul fdiv Ha Hs Hm Hd F F1 F2 F3 Z1 Z2 Z3 v Hv a q r Fa Hn E). Qed.
 Check polydiv_rounded_identity : forall (u : R), (0 <= u < 1)%R ->
@@ -47,11 +48,11 @@ Check polydiv_rounded_identity : forall (u : R), (0 <= u < 1)%R ->
   (forall x : R, F x -> fadd 0%R x = x) -> (forall x : R, F x -> fadd x 0%R = x) ->
   (forall x : R, F x -> fsub x 0%R = x) ->
   forall (a v q r : list R),
-  last v 0%R <> 0%R -> Forall F a -> (INR (2 * (length a + 1 - length v)) * u < 1)%R ->
+  last v 0%R <> 0%R -> Forall F a -> (INR (2 * Nat.min (length a + 1 - length v) (length v)) * u < 1)%R ->
   polydiv (A := ARm fadd fsub fmul fdiv) a v = Ok (inl (q, r)) ->
   forall k : nat,
   (Rabs (nth k a 0 - Rsum (S k) (fun i => nth i q 0 * nth (k - i) v 0) - nth k r 0)
-     <= gam u (2 * (length a + 1 - length v))
+     <= gam u (2 * Nat.min (length a + 1 - length v) (length v))
         * (Rabs (nth k a 0) + Rsum (S k) (fun i => Rabs (nth i q 0) * Rabs (nth (k - i) v 0))))%R.
 Print Assumptions polydiv_rounded_identity.
 (* the hypotheses are met by an arithmetic that rounds every operation (53-bit round-to-nearest-even), with F the
@@ -66,7 +67,7 @@ Example polydiv_rounded_identity_nonvacuous :
   (forall x : R, Fx x -> xadd 0%R x = x) /\ (forall x : R, Fx x -> xadd x 0%R = x) /\
   (forall x : R, Fx x -> xsub x 0%R = x) /\
   last [3%R] 0%R <> 0%R /\ Forall Fx [1%R; 1%R] /\
-  (INR (2 * (length [1%R; 1%R] + 1 - length [3%R])) * ux < 1)%R /\
+  (INR (2 * Nat.min (length [1%R; 1%R] + 1 - length [3%R]) (length [3%R])) * ux < 1)%R /\
   polydiv (A := AFlx) [1%R; 1%R] [3%R] = Ok (inl ([xdiv 1%R 3%R; xdiv 1%R 3%R], [0%R])) /\
   xdiv 1%R 3%R <> (1 / 3)%R.
 Proof.
@@ -74,6 +75,52 @@ Proof.
   split; [exact xdiv_ok|]. split; [exact Fx_sub|]. split; [exact Fx_mul|]. split; [exact Fx_div|].
   split; [exact xadd_0_l|]. split; [exact xadd_0_r|]. split; [exact xsub_0_r|].
   split; [cbn; lra|]. split; [repeat constructor; exact Fx_1|].
-  split; [cbn [length Nat.add Nat.sub Nat.mul INR]; pose proof ux_small; lra|].
+  split; [cbn [length Nat.add Nat.sub Nat.mul Nat.min INR]; pose proof ux_small; lra|].
   split; [exact ex_polydiv|exact xdiv_inexact].
+Qed.
+
+(* the same error against the computed quotient and remainder only: gam (4 M) ( Sum |q_i||v_{k-i}| + |r_k| ) *)
+Theorem polydiv_rounded_residual : forall (u : R), (0 <= u < 1)%R ->
+  forall (fadd fsub fmul fdiv : R -> R -> R),
+  (forall x y : R, exists d : R, (Rabs d <= u)%R /\ fadd x y = ((x + y) * (1 + d))%R) ->
+  (forall x y : R, exists d : R, (Rabs d <= u)%R /\ fsub x y = ((x - y) * (1 + d))%R) ->
+  (forall x y : R, exists d : R, (Rabs d <= u)%R /\ fmul x y = (x * y * (1 + d))%R) ->
+  (forall x y : R, y <> 0%R -> exists d : R, (Rabs d <= u)%R /\ fdiv x y = (x / y * (1 + d))%R) ->
+  forall (F : R -> Prop),
+  (forall x y : R, F (fsub x y)) -> (forall x y : R, F (fmul x y)) -> (forall x y : R, F (fdiv x y)) ->
+  (forall x : R, F x -> fadd 0%R x = x) -> (forall x : R, F x -> fadd x 0%R = x) ->
+  (forall x : R, F x -> fsub x 0%R = x) ->
+  forall (a v q r : list R),
+  last v 0%R <> 0%R -> Forall F a -> (INR (4 * Nat.min (length a + 1 - length v) (length v)) * u < 1)%R ->
+  polydiv (A := ARm fadd fsub fmul fdiv) a v = Ok (inl (q, r)) ->
+  forall k : nat,
+  (Rabs (nth k a 0 - Rsum (S k) (fun i => nth i q 0 * nth (k - i) v 0) - nth k r 0)
+     <= gam u (4 * Nat.min (length a + 1 - length v) (length v))
+        * (Rsum (S k) (fun i => Rabs (nth i q 0) * Rabs (nth (k - i) v 0)) + Rabs (nth k r 0)))%R.
+Proof. intros u Hu fadd fsub fmul fdiv Ha Hs Hm Hd F F1 F2 F3 Z1 Z2 Z3 a v q r Hv Fa Hn E. exact (polydiv_rounded_residual_lemma u Hu fadd fsub fmul fdiv Ha Hs Hm Hd F F1 F2 F3 Z1 Z2 Z3 v Hv a q r Fa Hn E). Qed.
+Check polydiv_rounded_residual : forall (u : R), (0 <= u < 1)%R ->
+  forall (fadd fsub fmul fdiv : R -> R -> R),
+  (forall x y : R, exists d : R, (Rabs d <= u)%R /\ fadd x y = ((x + y) * (1 + d))%R) ->
+  (forall x y : R, exists d : R, (Rabs d <= u)%R /\ fsub x y = ((x - y) * (1 + d))%R) ->
+  (forall x y : R, exists d : R, (Rabs d <= u)%R /\ fmul x y = (x * y * (1 + d))%R) ->
+  (forall x y : R, y <> 0%R -> exists d : R, (Rabs d <= u)%R /\ fdiv x y = (x / y * (1 + d))%R) ->
+  forall (F : R -> Prop),
+  (forall x y : R, F (fsub x y)) -> (forall x y : R, F (fmul x y)) -> (forall x y : R, F (fdiv x y)) ->
+  (forall x : R, F x -> fadd 0%R x = x) -> (forall x : R, F x -> fadd x 0%R = x) ->
+  (forall x : R, F x -> fsub x 0%R = x) ->
+  forall (a v q r : list R),
+  last v 0%R <> 0%R -> Forall F a -> (INR (4 * Nat.min (length a + 1 - length v) (length v)) * u < 1)%R ->
+  polydiv (A := ARm fadd fsub fmul fdiv) a v = Ok (inl (q, r)) ->
+  forall k : nat,
+  (Rabs (nth k a 0 - Rsum (S k) (fun i => nth i q 0 * nth (k - i) v 0) - nth k r 0)
+     <= gam u (4 * Nat.min (length a + 1 - length v) (length v))
+        * (Rsum (S k) (fun i => Rabs (nth i q 0) * Rabs (nth (k - i) v 0)) + Rabs (nth k r 0)))%R.
+Print Assumptions polydiv_rounded_residual.
+Example polydiv_rounded_residual_nonvacuous :   (* same instance and division as above *)
+  (0 <= ux < 1)%R /\ last [3%R] 0%R <> 0%R /\ Forall Fx [1%R; 1%R] /\
+  (INR (4 * Nat.min (length [1%R; 1%R] + 1 - length [3%R]) (length [3%R])) * ux < 1)%R /\
+  polydiv (A := AFlx) [1%R; 1%R] [3%R] = Ok (inl ([xdiv 1%R 3%R; xdiv 1%R 3%R], [0%R])).
+Proof.
+  split; [exact ux_range|]. split; [cbn; lra|]. split; [repeat constructor; exact Fx_1|].
+  split; [cbn [length Nat.add Nat.sub Nat.mul Nat.min INR]; pose proof ux_small; lra|exact ex_polydiv].
 Qed.
